@@ -13,6 +13,7 @@ import (
 	"github.com/pion/logging"
 	"github.com/pion/randutil"
 	"github.com/pion/turn/v5/internal/proto"
+	"github.com/pion/turn/v5/internal/verifhook"
 )
 
 // If no ConnectionBind request associated with this peer data
@@ -233,6 +234,7 @@ func (m *Manager) CreateAllocation( // nolint: cyclop
 	m.log.Debugf("Listening on relay address: %s", alloc.RelayAddr)
 
 	alloc.lifetimeTimer = time.AfterFunc(lifetime, func() {
+		verifhook.At("alloc.expire", alloc)
 		m.DeleteAllocation(alloc.fiveTuple)
 	})
 
@@ -270,6 +272,7 @@ func (m *Manager) DeleteAllocation(fiveTuple *FiveTuple) {
 		return
 	}
 
+	verifhook.At("alloc.delete.close", allocation)
 	m.lock.Lock()
 	if err := allocation.Close(); err != nil {
 		m.log.Errorf("Failed to close allocation: %v", err)
